@@ -1,7 +1,46 @@
-import Driver.Util
-open Lean
+import Driver.ProgJson
+import Heph.Model.Check
+/-! ops of the C01 family.
+  `check.wt` {program export + "bt": {"any","void","boolean","char","string","integer": index into tt,
+  "builtins": [indices]}} → {"r": "ok" | {"path": [...], "reason": tag, "detail": text},
+  "n": number of obligations, "tags": {tag: count}, "fail": [[path, tag, detail] …] (first 12 failures),
+  "nfail": number of failing obligations}. -/
+open Lean Heph Heph.Check
 namespace Driver.Check
 
-def handle : Handler := fun _ _ => none
+def parseLangTypes (tbl : Array Ty) (j : Json) : Except String LangTypes := do
+  let b ← j.getObjVal? "bt"
+  pure { any := ← tyAt tbl b "any", void := ← tyAt tbl b "void", boolean := ← tyAt tbl b "boolean",
+         char := ← tyAt tbl b "char", string := ← tyAt tbl b "string", integer := ← tyAt tbl b "integer",
+         builtins := ← tyListAt tbl b "builtins" }
+
+def tally (tags : List String) : Json :=
+  let m := tags.foldl (fun (m : List (String × Nat)) t =>
+    if m.any (·.1 == t) then m.map (fun p => if p.1 == t then (p.1, p.2 + 1) else p) else m ++ [(t, 1)]) []
+  Json.mkObj (m.map fun p => (p.1, Json.num (JsonNumber.fromNat p.2)))
+
+def failJson (o : Ob) : Json :=
+  Json.arr #[ofStrList o.path, Json.str o.tag, Json.str o.j.detail]
+
+def handle : Handler := fun op j =>
+  match op with
+  | "check.wt" => some (do
+      let (tbl, p) ← parseProgramObj j
+      let lt ← parseLangTypes tbl j
+      let os := progObs lt p
+      let bad := os.filter fun o => !o.j.check lt
+      let r := match checkProgram lt p with
+        | .ok => Json.str "ok"
+        | .error path reason detail =>
+            Json.mkObj [("path", ofStrList path), ("reason", Json.str reason), ("detail", Json.str detail)]
+      pure (Json.mkObj [("r", r), ("n", Json.num (JsonNumber.fromNat os.length)),
+        ("tags", tally (os.map (·.tag))), ("nfail", Json.num (JsonNumber.fromNat bad.length)),
+        ("fail", Json.arr ((bad.take 12).map failJson).toArray)]))
+  | "check.subd" => some (do
+      -- {tt, "bt", "s", "t"} → is `s` assignable to `t` according to the specification-side decider
+      let tbl ← parseTable j
+      let lt ← parseLangTypes tbl j
+      pure (res (Json.bool (asgB lt (← tyAt tbl j "s") (← tyAt tbl j "t")))))
+  | _ => none
 
 end Driver.Check
